@@ -73,4 +73,23 @@ CHECKS["C17"] = {
     ],
 }
 
+CHECKS["C09"] = {
+    "pkg": "./checks/c09",
+    "level": "exploration",
+    "rule": "rapid state machine on a real ChainDatabase (no consensus): addBlock under any live block or the stable block followed by 0..4 account writes through the block's AccountTrieDB "
+            "(once per block and address, before the block has children: the callers' protocol), read of any address through any live view (populates the in-place read cache), "
+            "SetStableBlock on any live block (also several heights at once), restart. Addresses: a per-case pool of 5..10 drawn from 7 symbols at byte 0/9/19 (plus 10% fresh ones), so splits, shared prefixes and third/fourth children before, between and behind existing ones all occur while the same address is still written in several blocks. "
+            "After every stabilisation / restart and every 7th step all live views x all addresses are compared with the tree model (nearest ancestor-or-self write, else persisted value), "
+            "the live set (IterateUnConfirms, IsExistByHash, GetUnConfirmByHeight from every leaf), the pruned set, the stable pointer and the persisted accounts. "
+            "non-trivial = a stabilisation pruned a non-descendant AND an address was read before a later write to it; distinct by op list digest.",
+    "level_text": "Model-based generated histories over the store API against a tree-of-write-maps reference model; thousands of histories per run, full view comparison after every stabilisation. "
+                  "Exploration bounded by history length (~30 steps) and the per-case address pool.",
+    "level_note": "Trusted: the reference model (60 lines); the callers' protocol that a block's accounts are written once, right after SetBlock and before any child exists (as DPoVP.saveNewBlock does under the chain lock).",
+    "technique": "rapid stateful model-based testing against a reference tree model",
+    "assumptions": ["a block's accounts are written at most once per address and before the block has children", "a restart drops unconfirmed blocks (they live in memory only)"],
+    "units": [
+        {"name": "views", "test": "TestC09Views", "quick": {"checks": 600, "shards": 4, "timeout": 600}, "thorough": {"checks": 6000, "shards": 16, "timeout": 3000}},
+    ],
+}
+
 NOT_APPLICABLE = {}
